@@ -72,8 +72,9 @@ def _lax_family(rng):
         c = rng.choice(["ge", "le", "multiple_of", "max_digits", "const", "enum"] + (["decimal_places"] * 2 if origin != "int" else []))
         if c in ("ge", "le"):
             b = rng.choice([0, 1, 3, 10, 100, -5, 255]) if rng.random() < 0.5 else conv(rng.choice([0, 1, 3, 10, 100, -5])) if origin != "float" else rng.choice([0.5, 1.5, 99.95, -1.5])
-            if origin == "int" and rng.random() < 0.3:
-                b = rng.choice([0.5, 1.5, 10.5, 99.95, -1.5, 3.0])  # float bound on an int rule (tolerated numeric pair)
+            if origin == "int" and rng.random() < 0.4:
+                # fractional bound on an int rule (tolerated numeric pairs: float and Decimal), both signs
+                b = rng.choice([0.5, 1.5, 10.5, 99.95, -1.5, 3.0, -2.5, Decimal("2.5"), Decimal("-2.5"), Decimal("0.5"), Decimal("-10.5"), Decimal("99.95"), Decimal("3")])
         elif c == "multiple_of":
             b = rng.choice([2, 3, 5, 10, 100]) if origin != "float" else rng.choice([2, 5, 0.5, 0.25, 0.1, 0.3, 10])
         elif c == "max_digits":
